@@ -350,6 +350,11 @@ func (pe *pathEnum) eventsOfInstr(in ssa.Instruction) []pathItem {
 			if ci.invoke != nil {
 				out = append(out, pathItem{kind: "CHILD", in: in})
 			} else {
+				for _, pl := range P.roles.Pipelines {
+					if pl == ci.static {
+						name = "primitive-pipeline"
+					}
+				}
 				out = append(out, pathItem{kind: "DELEGATE", val: name, in: in})
 			}
 		}
